@@ -109,8 +109,21 @@ def rule_args(chk):
                 gcs.append((n, c))
     problems = []
     cav = None
+    if not gcs:
+        # another way of binding: inspect.signature(...).bind(*args, **kwargs)
+        sigs = [x for x in ast.walk(lc.node) if isinstance(x, ast.Call) and unparse(x.func).split(".")[-1] in ("signature", "from_callable")
+                and x.args and isinstance(x.args[0], ast.Name) and x.args[0].id == fparam]
+        binds = [x for x in ast.walk(w.node) if isinstance(x, ast.Call) and isinstance(x.func, ast.Attribute) and x.func.attr in ("bind", "bind_partial")]
+        follows = [x for x in sigs if not any(k.arg == "follow_wrapped" and isinstance(k.value, ast.Constant) and k.value.value is False for k in x.keywords)]
+        if binds and follows:
+            chk.bad("C18.args", "log_call.logging_wrapper:start-fields-are-the-bound-arguments", chk.where(w, binds[0].lineno),
+                    "arguments are bound with %s(...).bind(...): inspect.signature follows __wrapped__, so when log_call decorates a function that is itself a functools.wraps-style "
+                    "wrapper with a different argument list, the call is bound against the inner function's parameters -- wrong names in the start message, or TypeError for a valid call "
+                    "(inspect.getcallargs binds against the decorated callable itself)" % unparse(follows[0].func))
+            return
+        raise AnalysisError("log_call.logging_wrapper: arguments are not bound with inspect.getcallargs (binding not modelled)")
     if len(gcs) != 1:
-        problems.append("arguments are not bound with one inspect.getcallargs call (found %d)" % len(gcs))
+        problems.append("arguments are bound with %d inspect.getcallargs calls" % len(gcs))
     else:
         n, c = gcs[0]
         okc = len(c.args) == 2 and isinstance(c.args[0], ast.Name) and c.args[0].id == fparam and isinstance(c.args[1], ast.Starred) and unparse(c.args[1].value) == va \
